@@ -438,7 +438,28 @@ impl World {
         let mut init_plan: Option<Vec<WAns>> = None;
         let mut init_mode: Option<String> = None;
         for t in &toks[2..] {
-            if let Some(v) = t.strip_prefix("id=") {
+            if let Some(v) = t.strip_prefix("id=next+") {
+                // the identity a non-random generator would hand out K connections from now: the last generated
+                // identity of this socket, read as a big-endian number, plus K
+                let kinc: u64 = v.parse().unwrap();
+                let mut base: Vec<u8> = self
+                    .conns
+                    .iter()
+                    .rev()
+                    .find(|(_, c)| !c.announced && c.ident.as_ref().map(|i| !i.is_empty()).unwrap_or(false))
+                    .and_then(|(_, c)| c.ident.clone())
+                    .unwrap_or_else(|| vec![0, 0, 0, 0, 0]);
+                let mut carry = kinc;
+                for b in base.iter_mut().rev() {
+                    let vsum = *b as u64 + (carry & 0xff);
+                    *b = (vsum & 0xff) as u8;
+                    carry = (carry >> 8) + (vsum >> 8);
+                    if carry == 0 {
+                        break;
+                    }
+                }
+                id = Some(base);
+            } else if let Some(v) = t.strip_prefix("id=") {
                 id = Some(bytes_tok(v));
             } else if let Some(v) = t.strip_prefix("ver=") {
                 let mut it = v.split('.');
